@@ -188,7 +188,7 @@ class Inquiry(SCSICommand):
 
     _ata_information_bits = {
         "sat_vendor_identification": ("b", 8, 8),
-        "sat_product_identification": ("b", 16, 20),
+        "sat_product_identification": ("b", 16, 16),
         "sat_product_rev_lvl": ("b", 32, 4),
     }
 
